@@ -71,20 +71,20 @@ def build(mods):
     def n_check(eng, n, hi):
         eng.host_check(sym.zb(land(n >= 0, n <= hi)), AssertionError, '0 <= n <= %d' % hi)
 
-    def rmode_unpred(eng, self, mode):
+    def rmode_unpred(eng, self, mode, n):
         ns = lnot(is_secure_spec(eng, self))
         unpred_if(eng, land(ns, mode == ST.MON))
         unpred_if(eng, land(ns, mode == ST.FIQ, bit(self.attrs['nsacr'].attrs['value'], 19) == 1))
-        unpred_if(eng, bad_mode_spec(eng, self, mode))
+        unpred_if(eng, land(n >= 8, bad_mode_spec(eng, self, mode)))      # the bank is consulted for R8..R14 only
 
     def get_rmode_spec(eng, self, n, mode):
         n_check(eng, n, 14)
-        rmode_unpred(eng, self, mode)
+        rmode_unpred(eng, self, mode, n)
         return ST.rget(_R(self), n, mode)
 
     def set_rmode_spec(eng, self, n, mode, value):
         n_check(eng, n, 14)
-        rmode_unpred(eng, self, mode)
+        rmode_unpred(eng, self, mode, n)
         value = c2i(value)
         unpred_if(eng, land(n == 13, bits(value, 1, 0) != 0, ST.iset(cpsr_value(self)) != ST.ISET_ARM))
         _store_R(self, ST.rset(_R(self), n, mode, value))
@@ -102,7 +102,7 @@ def build(mods):
         if isinstance(n, int) and n == 15:
             return ST.pc_read({'R.PC': R['PC'], 'cpsr': cpsr_value(self)})
         if isinstance(n, int):
-            rmode_unpred(eng, self, mode_of(self))
+            rmode_unpred(eng, self, mode_of(self), n)
             return ST.rget(R, n, mode_of(self))
         pcv = ST.pc_read({'R.PC': R['PC'], 'cpsr': cpsr_value(self)})
         is15 = n == 15
@@ -111,7 +111,7 @@ def build(mods):
         m = mode_of(self)
         unpred_if(eng, land(lnot(is15), lor(land(ns, m == ST.MON),
                                              land(ns, m == ST.FIQ, bit(self.attrs['nsacr'].attrs['value'], 19) == 1),
-                                             bad_mode_spec(eng, self, m))))
+                                             land(n >= 8, bad_mode_spec(eng, self, m)))))
         return ite(is15, pcv, ST.rget(R, ite(is15, 0, n), m))
 
     def set_spec(eng, self, n, value):
